@@ -235,6 +235,10 @@ class Harness:
 
     def check_close(self, name, a, b, tol=1e-9, detail=""):
         """a == b: exact normal-form equality in symbolic mode, |a-b| <= tol natively"""
+        for v in (a, b):
+            if v is None or isinstance(v, (str, bytes, list, tuple, dict, set)):
+                # the code under contract produced something that is not a number where the specification has one: a failed obligation on this path, not a checker crash
+                return self.check(name, False, detail=(detail + f" {a!r} is not comparable with {b!r}").strip())
         if self.symbolic:
             a, b = Poly._coerce(a), Poly._coerce(b)
             d = a - b
